@@ -1402,6 +1402,31 @@ func hRunHistory(t *testing.T, out *vOut, r *rand.Rand, id int) {
 			checkQuiescent()
 		}
 		out.Stat("directed_dualstack_sharing_scenarios", 1)
+	} else if id%8 == 3 {
+		// directed: the status write fails twice in a row while the allocation moves to another pool
+		// (status still empty, so neither memory nor the status shows the released address on the third attempt)
+		doPools([]gPool{{Name: "pa", CIDRs: []string{"10.0.5.6/32"}, Auto: true}, {Name: "pb", CIDRs: []string{"10.0.3.0/32"}, Auto: true}})
+		doReload(-1)
+		mover := gSpec{LB: true, Fam: "ipv4", ClusterOK: true, Pol: "single", Ports: []int{0}, WantPool: "pa"}
+		waiter := gSpec{LB: true, Fam: "ipv4", ClusterOK: true, Pol: "single", Ports: []int{1}, WantPool: "pa"}
+		doPut("ns1/a", mover)
+		doSvc("ns1/a", true)
+		doPut("ns1/b", waiter)
+		doSvc("ns1/b", false)
+		switch r.Intn(3) {
+		case 0:
+			mover.WantPool = "pb"
+		case 1:
+			mover.WantKind, mover.WantIPs, mover.WantPool = "annot", []string{"10.0.3.0"}, ""
+		default:
+			mover.LB = false
+		}
+		doPut("ns1/a", mover)
+		doSvc("ns1/a", true)
+		if drain() {
+			checkQuiescent()
+		}
+		out.Stat("directed_failed_write_scenarios", 1)
 	} else {
 		doPools(gGenPools(r))
 	}
